@@ -165,6 +165,8 @@ func init() {
 	}
 	intrinsics["vIteI"] = intrinsics["vIteS"]
 	intrinsics["vIteB"] = intrinsics["vIteS"]
+	// vMarshalRoundTrip: symbolic side: encoding/xml.Marshal is outside the encoding (always true, out untouched)
+	intrinsics["vMarshalRoundTrip"] = func(in *Interp, fn *ssa.Function, a []Value) Value { return smt.True }
 	intrinsics["vDebugErr"] = func(in *Interp, fn *ssa.Function, a []Value) Value { return nil }
 	intrinsics["vNote"] = func(in *Interp, fn *ssa.Function, a []Value) Value {
 		in.Notes = append(in.Notes, constStr(in, a[0], "vNote"))
